@@ -514,6 +514,12 @@ CATALOGUE['C14'] += [
   (F, 'R-PARTIALRAISE', 'camxfiles/one3d/Memmap.py', "        if self.__records % lays != 0:\n            raise ValueError('Incomplete time step: %d records of %d layers'\n                             % (self.__records, lays))\n", ""),
 ]
 
+CATALOGUE['C08'] += [
+  (F, 'R-ONESTEP', 'camxfiles/temperature/Memmap.py', "                break\n        else:\n            # a single time step: every record belongs to it\n            i = times.shape[0]\n", "                break\n"),
+  (F, 'R-ONESTEP', 'camxfiles/height_pressure/Memmap.py', "        else:\n            # a single time step: every record belongs to it\n            i = times.shape[0]\n", "        else:\n            pass\n"),
+  (F, 'R-ONESTEP', 'camxfiles/one3d/Memmap.py', "        lays = newstep[0] if newstep.size > 0 else self.__records\n", "        lays = newstep[0]\n"),
+  (S, None, 'camxfiles/one3d/Memmap.py', "        lays = newstep[0] if newstep.size > 0 else self.__records\n", "        if len(newstep) == 0:\n            lays = self.__records\n        else:\n            lays = newstep[0]\n"),
+]
 CATALOGUE['C09'] += [
   (F, 'R-PROBETOTAL', 'camxfiles/landuse/Memmap.py', "        first_line = self._rffile.infile.read(8).decode('latin1')\n", "        first_line, = self._rffile.read('8s')\n"),
   (F, 'R-PROBETOTAL', 'camxfiles/landuse/Memmap.py', "        first_line = self._rffile.infile.read(8).decode('latin1')\n", "        first_line = self._rffile.infile.read(8).decode()\n"),
